@@ -2,6 +2,7 @@
 \* 2 views (realms <<>> and <<0>>) over 3 full keys with 2 values
 SPECIFICATION MCSpec
 CONSTANTS
+  FlushWraps = {"flush"}
   Threads = {t1, t2}
   CallsPerThread = 2
   MaxCommitOps = 2
